@@ -48,6 +48,10 @@ def plan(rng, tier):
             out.append(op)
             if rng.random() < 0.2:
                 out.append(["commit"])
+                if rng.random() < 0.6:
+                    # the next call starts on (partly) evicted nodes
+                    out.append(["sweep", rng.choice(["minimize", "some"]),
+                                rng.randrange(1 << 16)])
         hist = out
     return {"cfg": cfg, "ops": hist}
 
@@ -57,7 +61,7 @@ def simplify(plan):
     if cfg["stored"]:
         p = _copy(plan)
         p["cfg"]["stored"] = False
-        p["ops"] = [o for o in p["ops"] if o[0] != "commit"]
+        p["ops"] = [o for o in p["ops"] if o[0] not in ("commit", "sweep")]
         yield p
     if cfg["dom"].get("ext"):
         # cannot drop extremes without re-indexing keys; skip
@@ -98,6 +102,10 @@ def execute(plan, ctx):
             if conn is not None:
                 common.commit(conn, ctx)
                 ctx.ev("commit")
+            continue
+        if name == "sweep":
+            if conn is not None:
+                ctx.ev("sweep", common.sweep(conn, op, ctx))
             continue
         want = model.apply(op)
         got = ops.apply(c, op, dom, impl, kind)
